@@ -322,7 +322,16 @@ func initStringStubs() {
 		return ret(st, strContains(args[0].(*Term), args[1].(*Term)))
 	}
 	stubTable["strings.Index"] = func(e *Exec, st *State, fn *Func, args []Value, site string) []Outcome {
-		return ret(st, intToBV(strIndexOf(args[0].(*Term), args[1].(*Term)), 64))
+		s, sub := args[0].(*Term), args[1].(*Term)
+		idx := strIndexOf(s, sub)
+		if !idx.IsConst() {
+			// theory facts that solvers are slow to derive: the index is -1 exactly when the substring is absent,
+			// otherwise it lies inside the string
+			st.Assume(Eq(strContains(s, sub), intLe(IntConst(0), idx)))
+			st.Assume(intLe(IntConst(-1), idx))
+			st.Assume(intLe(intAdd(idx, strLenInt(sub)), strLenInt(s)))
+		}
+		return ret(st, intToBV(idx, 64))
 	}
 	stubTable["strings.HasPrefix"] = func(e *Exec, st *State, fn *Func, args []Value, site string) []Outcome {
 		s, p := args[0].(*Term), args[1].(*Term)
